@@ -139,6 +139,26 @@ def model_days_as_months(d, n_days, sign):
         return None
 
 
+ENUM_OFFSETS = ([('day', n) for n in (1, 7, 28, 29, 30, 31, 59, 60, 61, 62, 365, 366)] + [('week', n) for n in (1, 2, 3, 4, 5)] +
+                [('month', n) for n in range(1, 26)] + [('year', n) for n in (1, 4, 100)])
+
+
+def enumerate_days(shard, nshards, stride):
+    """every day of 2023-2024 x ENUM_OFFSETS x {+,-}; with stride > 1 (quick tier) every stride-th combination, rotating"""
+    k = 0
+    d0 = datetime.date(2023, 1, 1)
+    for i in range(731):
+        d = d0 + datetime.timedelta(days=i)
+        for (unit, n) in ENUM_OFFSETS:
+            for sign in (1, -1):
+                k += 1
+                if k % nshards != shard:
+                    continue
+                if stride > 1 and (k // nshards + i) % stride:
+                    continue
+                yield (d, unit, n, sign)
+
+
 def run_shard(ctx):
     rng = ctx.rng
     res = ctx.res
@@ -147,6 +167,7 @@ def run_shard(ctx):
     drv = ctx.driver(epoch, rw=True)
     langs = lex.languages()
     res.notes.append('shard %d: virtual date %s' % (ctx.shard, today))
+    enum = enumerate_days(ctx.shard, ctx.nshards, 1)          # 65 790 combinations over the shards, in both tiers
     while not ctx.out_of_time():
         # the default zone labels a date but never moves it: the calendar day read, computed and printed is the same under every zone
         dz = rng.choice(['UTC', 'UTC', 'UTC', 'EST', 'PST', 'GMT-12', 'GMT-0:30', 'CET', 'NZDT', 'IST', 'GMT+14'])
@@ -158,6 +179,25 @@ def run_shard(ctx):
             words = lex.duration_words(lang)
             d = gen_date(rng, today)
             r = rng.random()
+            e = next(enum, None) if rng.random() < 0.4 else None
+            if e is not None:
+                # systematic part: every day of 2023 and 2024 with every offset of the list (each shard takes its share)
+                d, unit, n, sign = e
+                if unit not in words:
+                    continue
+                text0, form = spell(rng, lang, d, today)
+                text = '%s %s %d %s' % (text0, '+' if sign > 0 else '-', n, rng.choice(words[unit]))
+                if unit == 'day':
+                    want = d + datetime.timedelta(days=sign * n)
+                elif unit == 'week':
+                    want = d + datetime.timedelta(days=sign * 7 * n)
+                else:
+                    want = add_months(d, sign * n * (12 if unit == 'year' else 1))
+                res.count('enumerated_day_x_offset_cases')
+                res.cover('start date of the systematic part (days of 2023-2024)', str(d), 731)
+                span_days = {'day': n, 'week': 7 * n}.get(unit)
+                meta.append((lang, text, 'arith:%s:%s' % (unit, '+' if sign > 0 else '-'), ('date', want, d, span_days, sign, unit, n)))
+                continue
             if r < 0.25:
                 text, form = spell(rng, lang, d, today)
                 meta.append((lang, text, 'literal:' + form, ('date', d)))
